@@ -41,14 +41,15 @@ pub fn judge(seed: &'static str, word: &[Op]) -> Option<Out> {
     };
     // 1. identical workbook structure
     if um.get_model().workbook != um2.get_model().workbook {
-        let a = format!("{:?}", um.get_model().workbook);
-        let b = format!("{:?}", um2.get_model().workbook);
+        let a = obs::state_text(um.get_model());
+        let b = obs::state_text(um2.get_model());
         let pos = a.bytes().zip(b.bytes()).position(|(x, y)| x != y).unwrap_or(0);
-        let lo = pos.saturating_sub(60);
+        let mut lo = pos.saturating_sub(80);
+        while !a.is_char_boundary(lo) { lo -= 1; }
         ds.push(Disagreement {
             sig: format!("workbook-differs-after-reload last-op={}", last),
             case: case.clone(),
-            detail: format!("decode(encode(w)) != w near: `{}` vs `{}`", &a[lo..(pos + 60).min(a.len())], &b[lo..(pos + 60).min(b.len())]),
+            detail: format!("decode(encode(w)) != w near: `{}` vs `{}`", a.get(lo..).map(|x| x.chars().take(160).collect::<String>()).unwrap_or_default(), b.get(lo..).map(|x| x.chars().take(160).collect::<String>()).unwrap_or_default()),
         });
     }
     // 2. identical observation (contents, formula texts, values, styles ...) before and after an extra evaluate
